@@ -377,3 +377,446 @@ class Facts:
             seen.add(n)
             st.extend(g.get(n, ()))
         return seen
+
+
+# ----------------------------------------------------------------------------------------
+# AbsInt — a small path-enumerating abstract interpreter over MIR facts.
+#
+# It never runs code: it walks the CFG of one body, keeps an environment of *symbolic* values
+# for places, decides a SwitchInt when its operand is a known constant and forks otherwise
+# (recording the choice as a path constraint).  Loops are cut after `loop_bound` visits of
+# the same block on one path.  Used for enum-map extraction (EMX), per-opcode effects (VMX),
+# totality tables and protocol rules.
+# ----------------------------------------------------------------------------------------
+def place_key(p):
+    k = '_%d' % p['local']
+    for e in p['proj']:
+        if e == 'deref':
+            k += '.*'
+        elif isinstance(e, dict) and 'field' in e:
+            k += '.f%d' % e['field']
+        elif isinstance(e, dict) and 'index' in e:
+            k += '.[_%d]' % e['index']
+        elif isinstance(e, dict) and 'const_index' in e:
+            k += '.[%d%s]' % (e['const_index'], 'e' if e.get('from_end') else '')
+        elif isinstance(e, dict) and 'downcast' in e:
+            k += '@%s' % e['downcast']
+        else:
+            k += '.?%s' % (e,)
+    return k
+
+
+class Path:
+    __slots__ = ('blocks', 'env', 'constraints', 'calls', 'exit', 'exit_block', 'asserts', 'writes')
+
+    def __init__(self):
+        self.blocks = []
+        self.env = {}
+        self.constraints = []   # (what, value)
+        self.calls = []         # (block, name, argvals, dest_key, term)
+        self.asserts = []       # (block, msg kind)
+        self.writes = []        # (block, place key (resolved), value)
+        self.exit = None
+        self.exit_block = None
+
+    def clone(self):
+        p = Path()
+        p.blocks = list(self.blocks)
+        p.env = dict(self.env)
+        p.constraints = list(self.constraints)
+        p.calls = list(self.calls)
+        p.asserts = list(self.asserts)
+        p.writes = list(self.writes)
+        return p
+
+    def call_names(self):
+        return [c[1] for c in self.calls]
+
+
+class AbsInt:
+    def __init__(self, facts, fn, init_env=None, stop_blocks=(), loop_bound=2, max_paths=20000,
+                 decide_call=None):
+        self.facts = facts
+        self.fn = fn
+        self.init_env = init_env or {}
+        self.stop_blocks = set(stop_blocks)
+        self.loop_bound = loop_bound
+        self.max_paths = max_paths
+        self.decide_call = decide_call   # callback(name, argvals) -> absval or None
+        self.paths = []
+        self.truncated = False
+
+    # -- values -------------------------------------------------------------------------
+    def discr_value(self, enum_path, variant):
+        a = self.facts.adts.get(enum_path)
+        if not a:
+            return None
+        for i, v in enumerate(a['variants']):
+            if v['name'] == variant:
+                return v['discr'] if v['discr'] is not None else i
+        return None
+
+    def variant_of_discr(self, enum_path, d):
+        a = self.facts.adts.get(enum_path)
+        if not a:
+            return None
+        for i, v in enumerate(a['variants']):
+            dv = v['discr'] if v['discr'] is not None else i
+            if dv == d:
+                return v['name']
+        return None
+
+    def read_place(self, env, p):
+        key = '_%d' % p['local']
+        val = env.get(key, ('local', p['local']))
+        for e in p['proj']:
+            if e == 'deref':
+                if val[0] == 'ref':
+                    key = val[1]
+                    dflt = ('mem', key)
+                    if key.startswith('_') and key[1:].isdigit():
+                        dflt = ('local', int(key[1:]))
+                    val = env.get(key, dflt)
+                    continue
+                key = key + '.*'
+                val = env.get(key, ('deref', val))
+            elif isinstance(e, dict) and 'field' in e:
+                key = key + '.f%d' % e['field']
+                if key in env:
+                    val = env[key]
+                elif val[0] == 'agg' and e['field'] < len(val[3]):
+                    val = val[3][e['field']]
+                else:
+                    val = ('field', val, e['name'])
+            elif isinstance(e, dict) and 'downcast' in e:
+                key = key + '@%s' % e['downcast']
+                if key in env:
+                    val = env[key]
+                elif val[0] == 'agg' and val[2] == e['downcast']:
+                    pass
+                else:
+                    val = ('downcast', val, e['downcast'])
+            elif isinstance(e, dict) and 'index' in e:
+                iv = env.get('_%d' % e['index'], ('local', e['index']))
+                key = key + '.[%r]' % (iv,)
+                val = env.get(key, ('index', val, iv))
+            else:
+                key = key + '.?'
+                val = ('proj', val, repr(e))
+        return val
+
+    def resolve_key(self, env, p):
+        """key under which a write to place p is stored (through known references)"""
+        key = '_%d' % p['local']
+        for e in p['proj']:
+            if e == 'deref':
+                v = env.get(key)
+                if v is not None and v[0] == 'ref':
+                    key = v[1]
+                else:
+                    key = key + '.*'
+            elif isinstance(e, dict) and 'field' in e:
+                key = key + '.f%d' % e['field']
+            elif isinstance(e, dict) and 'downcast' in e:
+                key = key + '@%s' % e['downcast']
+            elif isinstance(e, dict) and 'index' in e:
+                iv = env.get('_%d' % e['index'], ('local', e['index']))
+                key = key + '.[%r]' % (iv,)
+            else:
+                key = key + '.?'
+        return key
+
+    def write_key(self, env, key, val):
+        pref = key + '.'
+        pref2 = key + '@'
+        for k in [k for k in env if k.startswith(pref) or k.startswith(pref2)]:
+            del env[k]
+        env[key] = val
+
+    def eval_op(self, env, op):
+        k = op['k']
+        if k == 'const':
+            if 'variant' in op:
+                return ('enum', op['ty'], op['variant'])
+            if 'fn' in op:
+                return ('fn', op['fn'])
+            if 'str' in op:
+                return ('str', op['str'])
+            if 'int' in op:
+                return ('int', op['int'], op['ty'])
+            return ('const', op['text'], op['ty'])
+        if k in ('copy', 'move'):
+            return self.read_place(env, op['place'])
+        return ('unknown', op.get('text'))
+
+    def eval_rv(self, env, rv, where):
+        k = rv['k']
+        if k == 'use':
+            return self.eval_op(env, rv['op'])
+        if k in ('ref', 'rawptr'):
+            key = self.resolve_key(env, rv['place'])
+            return ('ref', key)
+        if k == 'cast':
+            v = self.eval_op(env, rv['op'])
+            if v[0] == 'int':
+                return ('int', v[1], rv['to'])
+            if v[0] == 'discr' and v[1][0] == 'enum':
+                d = self.discr_value(v[1][1], v[1][2])
+                if d is not None:
+                    return ('int', d, rv['to'])
+            return ('cast', v, rv['to'], rv['ck'])
+        if k == 'binop':
+            l = self.eval_op(env, rv['l'])
+            r = self.eval_op(env, rv['r'])
+            if l[0] == 'int' and r[0] == 'int':
+                a, b = l[1], r[1]
+                opn = rv['op']
+                try:
+                    res = {'Eq': a == b, 'Ne': a != b, 'Lt': a < b, 'Le': a <= b, 'Gt': a > b,
+                           'Ge': a >= b}.get(opn)
+                    if res is not None:
+                        return ('int', int(res), 'bool')
+                    if opn in ('AddWithOverflow', 'SubWithOverflow', 'MulWithOverflow'):
+                        r2 = {'A': a + b, 'S': a - b, 'M': a * b}[opn[0]]
+                        return ('agg', 'tuple', None, (('int', r2, rv['lty']), ('int', 0, 'bool')))
+                    res = {'Add': a + b, 'Sub': a - b, 'Mul': a * b, 'BitAnd': a & b,
+                           'BitOr': a | b, 'Shl': a << b if 0 <= b < 128 else None,
+                           'Shr': a >> b if 0 <= b < 128 else None}.get(opn)
+                    if res is not None:
+                        return ('int', res, rv['lty'])
+                except Exception:
+                    pass
+            return ('binop', rv['op'], l, r, rv['lty'])
+        if k == 'unop':
+            x = self.eval_op(env, rv['x'])
+            if rv['op'] == 'Not' and x[0] == 'int' and rv['xty'] == 'bool':
+                return ('int', 1 - x[1], 'bool')
+            return ('unop', rv['op'], x, rv['xty'])
+        if k == 'discr':
+            v = self.read_place(env, rv['place'])
+            if v[0] == 'enum':
+                d = self.discr_value(rv['enum'], v[2])
+                if d is not None:
+                    return ('int', d, 'discr')
+            if v[0] == 'agg' and v[1] == rv['enum']:
+                d = self.discr_value(rv['enum'], v[2])
+                if d is not None:
+                    return ('int', d, 'discr')
+            return ('discr_of', self.resolve_key(env, rv['place']), rv['enum'], v)
+        if k == 'aggregate':
+            vals = tuple(self.eval_op(env, o) for o in rv['ops'])
+            if 'adt' in rv:
+                a = self.facts.adts.get(rv['adt'])
+                if a and a['kind'] == 'Enum' and not vals:
+                    return ('enum', rv['adt'], rv['variant'])
+                return ('agg', rv['adt'], rv['variant'], vals)
+            if 'closure' in rv:
+                return ('closure', rv['closure'], vals)
+            return ('agg', rv.get('agg'), None, vals)
+        return ('unknown', where)
+
+    # -- driver -------------------------------------------------------------------------
+    def run(self, start=0):
+        p0 = Path()
+        p0.env = dict(self.init_env)
+        work = [(start, p0)]
+        while work:
+            if len(self.paths) + len(work) > self.max_paths:
+                self.truncated = True
+                break
+            b, path = work.pop()
+            self.step(b, path, work)
+        return self.paths
+
+    def finish(self, path, kind, b):
+        path.exit = kind
+        path.exit_block = b
+        self.paths.append(path)
+
+    def step(self, b, path, work):
+        fn = self.fn
+        while True:
+            if b in self.stop_blocks and path.blocks:
+                self.finish(path, 'stop', b)
+                return
+            if path.blocks.count(b) >= self.loop_bound:
+                self.finish(path, 'loopcut', b)
+                return
+            path.blocks.append(b)
+            bl = fn.blocks[b]
+            env = path.env
+            for si, st in enumerate(bl['stmts']):
+                if st['k'] == 'assign':
+                    val = self.eval_rv(env, st['rv'], (b, si))
+                    key = self.resolve_key(env, st['place'])
+                    self.write_key(env, key, val)
+                    if st['place']['proj']:
+                        path.writes.append((b, key, val, st))
+                elif st['k'] == 'setdiscr':
+                    pass
+            t = bl['term']
+            k = t['k']
+            if k == 'goto':
+                b = t['target']
+                continue
+            if k == 'return':
+                self.finish(path, 'return', b)
+                return
+            if k in ('unreachable', 'resume', 'terminate'):
+                self.finish(path, k, b)
+                return
+            if k == 'drop':
+                path.calls.append((b, 'drop', (self.read_place(env, t['place']),), None, t))
+                b = t['target']
+                continue
+            if k == 'assert':
+                path.asserts.append((b, t['msg']))
+                b = t['target']
+                continue
+            if k == 'call':
+                name = callee_name(t)
+                argvals = tuple(self.eval_op(env, a) for a in t['args'])
+                dkey = self.resolve_key(env, t['dest'])
+                path.calls.append((b, name, argvals, dkey, t))
+                res = None
+                if self.decide_call:
+                    res = self.decide_call(name, argvals, t)
+                if res is None:
+                    res = ('call', name, argvals, b)
+                self.write_key(env, dkey, res)
+                if t['target'] is None:
+                    self.finish(path, 'diverge', b)
+                    return
+                b = t['target']
+                continue
+            if k == 'switch':
+                v = self.eval_op(env, t['op'])
+                targets = t['targets']
+                if v[0] == 'int':
+                    nb = t['otherwise']
+                    for val, tb in targets:
+                        if val == v[1]:
+                            nb = tb
+                            break
+                    b = nb
+                    continue
+                # fork
+                opts = [(val, tb) for val, tb in targets] + [(None, t['otherwise'])]
+                # group by target? keep per value for constraints
+                first = True
+                forks = []
+                for val, tb in opts:
+                    np = path.clone()
+                    if v[0] == 'discr_of':
+                        if val is not None:
+                            var = self.variant_of_discr(v[2], val)
+                        else:
+                            taken = {x for x, _ in targets}
+                            a = self.facts.adts.get(v[2])
+                            rest = []
+                            if a:
+                                for i, vv in enumerate(a['variants']):
+                                    dv = vv['discr'] if vv['discr'] is not None else i
+                                    if dv not in taken:
+                                        rest.append(vv['name'])
+                            if not rest:
+                                continue   # otherwise-branch is unreachable: all variants listed
+                            var = 'otherwise:' + '|'.join(rest)
+                            if len(rest) == 1:
+                                var = rest[0]
+                        np.constraints.append((('variant', v[1], v[2]), var, b))
+                        if var and not var.startswith('otherwise:'):
+                            # remember the variant of that place for later discriminant reads
+                            old = np.env.get(v[1])
+                            if old is None or old[0] not in ('agg',):
+                                np.env[v[1] + '#variant'] = var
+                    else:
+                        np.constraints.append((('switch', v), val, b))
+                    forks.append((tb, np))
+                for tb, np in reversed(forks):
+                    work.append((tb, np))
+                return
+            # other terminators
+            self.finish(path, 'other:' + k, b)
+            return
+
+
+# ----------------------------------------------------------------------------------------
+# symbolic-value tree helpers
+# ----------------------------------------------------------------------------------------
+def uncast(v):
+    while isinstance(v, tuple) and v and v[0] == 'cast':
+        v = v[1]
+    return v
+
+
+def cast_types(v):
+    out = []
+    while isinstance(v, tuple) and v and v[0] == 'cast':
+        out.append((v[2], v[3]))
+        v = v[1]
+    return out
+
+
+def subtrees(v):
+    if isinstance(v, tuple):
+        yield v
+        for x in v:
+            if isinstance(x, tuple):
+                for y in subtrees(x):
+                    yield y
+
+
+def is_binop(v, op=None):
+    return isinstance(v, tuple) and v and v[0] == 'binop' and (op is None or v[1] == op)
+
+
+def int_of(v):
+    v = uncast(v)
+    if isinstance(v, tuple) and v and v[0] == 'int':
+        return v[1]
+    return None
+
+
+def show(v, depth=0):
+    """compact rendering of a symbolic value"""
+    if not isinstance(v, tuple) or not v:
+        return str(v)
+    k = v[0]
+    if k == 'int':
+        return '%s_%s' % (v[1], v[2])
+    if k == 'local':
+        return '_%d' % v[1]
+    if k == 'enum':
+        return '%s::%s' % (v[1].split('::')[-1], v[2])
+    if k == 'cast':
+        return '(%s as %s)' % (show(v[1]), v[2])
+    if k == 'binop':
+        return '%s(%s, %s)' % (v[1], show(v[2]), show(v[3]))
+    if k == 'unop':
+        return '%s(%s)' % (v[1], show(v[2]))
+    if k == 'field':
+        return '%s.%s' % (show(v[1]), v[2])
+    if k == 'call':
+        return '%s(%s)@bb%s' % (v[1].split('::')[-1], ', '.join(show(a) for a in v[2]), v[3])
+    if k == 'ref':
+        return '&%s' % v[1]
+    if k == 'agg':
+        return '%s::%s{%s}' % (v[1], v[2], ', '.join(show(a) for a in v[3]))
+    if k == 'discr_of':
+        return 'discr(%s)' % v[1]
+    if k == 'str':
+        return repr(v[1])
+    return '%s(%s)' % (k, ', '.join(show(a) if isinstance(a, tuple) else str(a) for a in v[1:]))
+
+
+def ret_exprs(facts, fn, init_env=None, **kw):
+    """[(path, value of the return place)] for every path that returns"""
+    ai = AbsInt(facts, fn, init_env or {}, **kw)
+    out = []
+    for p in ai.run():
+        if p.exit == 'return':
+            out.append((p, p.env.get('_0')))
+    if ai.truncated:
+        raise CheckerError('path enumeration truncated in %s' % fn.path)
+    return out
